@@ -119,18 +119,18 @@ Print Assumptions C13_expect_pinned_refuted.
    function, all injected/expected lists and all calls with distinct keywords,
    the MODEL's observation satisfies it - so on a run where [agree] holds (model =
    implementation on that case) the implementation's behaviour is the proved one. *)
-Theorem C13_model_satisfies_spec : forall f steps fwd partial calls,
-  wf_func f -> steps <> [] -> steps_nonzero steps ->
+Theorem C13_model_satisfies_spec : forall f steps fwd partial kinds calls,
+  wf_func f -> steps <> [] -> steps_nonzero steps -> kinds_ok f steps kinds ->
   Forall (fun c => NoDup (keys (c_kw c))) calls ->
   (fwd = true -> forallb plain_step steps = true) ->
   (fwd = false -> partial_ok steps partial = true) ->
-  holds (model_case f steps fwd partial calls) = true.
+  holds (model_case f steps fwd partial kinds calls) = true.
 Proof. exact model_holds. Qed.
 Print Assumptions C13_model_satisfies_spec.
 
-Theorem C13_model_agrees_with_itself : forall f steps fwd partial calls,
+Theorem C13_model_agrees_with_itself : forall f steps fwd partial kinds calls,
   wf_func f -> steps_nonzero steps ->
-  agree (model_case f steps fwd partial calls) = true.
+  agree (model_case f steps fwd partial kinds calls) = true.
 Proof. exact model_agrees. Qed.
 Print Assumptions C13_model_agrees_with_itself.
 
@@ -143,6 +143,7 @@ Theorem C13_agree_implies_holds : forall k,
   Forall (fun c => NoDup (keys (c_kw c))) (k_calls k) ->
   (k_forward k = true -> forallb plain_step (k_steps k) = true) ->
   (k_forward k = false -> partial_ok (k_steps k) (k_partial k) = true) ->
+  kinds_ok (k_f k) (k_steps k) (k_wkinds k) ->
   agree k = true -> holds k = true.
 Proof. exact agree_implies_holds. Qed.
 Print Assumptions C13_agree_implies_holds.
@@ -164,6 +165,17 @@ Theorem C13_inject_strict : forall o gid f n,
   exists e, update_wrapper_opt o gid f [n] [] = Raise e.
 Proof. exact inject_strict. Qed.
 Print Assumptions C13_inject_strict.
+
+(* AWAITING.  Whatever the wrappers are - plain defs / lambdas passing their arguments on, or
+   async defs awaiting the function below (those only around async functions) - the outermost
+   function of any stack needs exactly as many awaits as the original: awaiting the wrapper's
+   call gives what awaiting the original gives, no coroutine object is left over. *)
+Theorem C13_no_extra_awaits : forall f steps kinds,
+  wf_func f -> steps_nonzero steps -> kinds_ok f steps kinds ->
+  snd (run_steps f steps) = None ->
+  extra_awaits f (fst (run_steps f steps)) kinds = 0.
+Proof. exact no_extra_awaits. Qed.
+Print Assumptions C13_no_extra_awaits.
 
 (* ---- stacked decorators, and functions that already carry attributes ------------------------------ *)
 (* __wrapped__ of the result is the wrapped function whatever __dict__ that one
@@ -348,8 +360,8 @@ Example C13_ex_stack :
   steps_nonzero ex_steps.
 Proof. exact ex_stack. Qed.
 Example C13_ex_stack_holds :
-  holds (model_case ex_f ex_steps false 0 [ex_call; ex_bad_call]) = true /\
-  holds (model_case ex_f [mkStep [] [] default_options 101; mkStep [] [] default_options 102] true 0 [ex_call; ex_bad_call]) = true /\
-  holds (model_case ex_f [mkStep [2] [] default_options 101; mkStep [] [] default_options 102; mkStep [] [] default_options 103] false 2 [ex_call; ex_bad_call]) = true /\
+  holds (model_case ex_f ex_steps false 0 [WSync; WSync; WSync] [ex_call; ex_bad_call]) = true /\
+  holds (model_case ex_f [mkStep [] [] default_options 101; mkStep [] [] default_options 102] true 0 [WSync; WSync] [ex_call; ex_bad_call]) = true /\
+  holds (model_case ex_f [mkStep [2] [] default_options 101; mkStep [] [] default_options 102; mkStep [] [] default_options 103] false 2 [WSync; WSync; WSync] [ex_call; ex_bad_call]) = true /\
   partial_ok [mkStep [2] [] default_options 101; mkStep [] [] default_options 102; mkStep [] [] default_options 103] 2 = true.
 Proof. exact ex_stack_holds. Qed.
